@@ -266,8 +266,12 @@ impl<T: Socket + ?Sized> Worker<T> {
         for i in 0..self.repeat_amount {
             if i > 0 {
                 std::thread::sleep(DEFAULT_DUPLICATE_DELAY);
+                // The peer may be done (and gone) as soon as the first copy has
+                // arrived: a duplicate that cannot be delivered is not an error.
+                let _ = self.socket.send(packet);
+            } else {
+                self.socket.send(packet)?;
             }
-            self.socket.send(packet)?;
         }
 
         Ok(())
